@@ -36,6 +36,15 @@ def load_findings():
     return kf
 
 
+def evidence_root():
+    """/verif/evidence, except when NLVERIF_REPO points the check at a tree other than /repo (a seeded change or a mutant in
+    a scratch worktree): what is observed there is not evidence about /repo and must not overwrite it."""
+    alt = os.environ.get("NLVERIF_REPO")
+    if alt and os.path.realpath(alt) != "/repo":
+        return os.path.join("/var/tmp/nlverif/alt-evidence", os.path.basename(os.path.realpath(alt)))
+    return os.path.join(VERIF, "evidence")
+
+
 class Ctx:
     def __init__(self, pid, tier, seed, level, keep_replay=False):
         self.pid = pid
@@ -49,7 +58,7 @@ class Ctx:
         self.notes = []
         kf = load_findings()
         self.open = {e["key"]: e for e in kf.get("open", []) if e.get("property") == pid}
-        self.replay_root = os.path.join(VERIF, "evidence", "replay", pid)
+        self.replay_root = os.path.join(evidence_root(), "replay", pid)
         if not keep_replay:
             shutil.rmtree(self.replay_root, ignore_errors=True)
         self._vseen = set()
@@ -123,12 +132,12 @@ class Ctx:
         }
         if self.violations:
             cov["violation_keys"] = [{"key": v[0], "count": v[3], "replay": v[2]} for v in self.violations[:50]]
-        os.makedirs(os.path.join(VERIF, "evidence"), exist_ok=True)
-        tmp = os.path.join(VERIF, "evidence", ".%s.json.tmp" % self.pid)
+        os.makedirs(evidence_root(), exist_ok=True)
+        tmp = os.path.join(evidence_root(), ".%s.json.tmp" % self.pid)
         with open(tmp, "w") as f:
             json.dump(ev, f, indent=1, sort_keys=False, default=str)
             f.write("\n")
-        os.replace(tmp, os.path.join(VERIF, "evidence", "%s.json" % self.pid))
+        os.replace(tmp, os.path.join(evidence_root(), "%s.json" % self.pid))
         for k in self.known_seen_order:
             e = self.open[k]
             print("KNOWN-FINDING: property=%s %s [key=%s, seen %d time(s)]" % (self.pid, e["what"], k, self.known_hit[k]))
